@@ -987,3 +987,167 @@ Section DfsProps.
     rewrite <- Hf', map_rev, Hm. reflexivity.
   Qed.
 End DfsProps.
+
+(* ====================================================================== *)
+(* 10. C14 statements on the implementation model                           *)
+(* ====================================================================== *)
+
+Theorem traversal_exact : forall d a reverse origin,
+  adj_ok (gr d) -> graph_index (gr d) origin = true ->
+  exists r, graph_search rv_fixed d a reverse origin [] HDefault = Some (origin :: r) /\
+            NoDup (origin :: r) /\
+            (forall x, In x (origin :: r) <-> reach (gr d) reverse origin x).
+Proof.
+  intros d a rv o Hok Ho. rewrite (lazy_eq_eager d a rv o Hok Ho).
+  rewrite graph_index_elem_id in Ho.
+  destruct (search_spec_reachable (gr d) Hok a rv o Ho) as ((tl & Hhd) & Hnd & Hreach & _).
+  exists (map fst tl). rewrite Hhd in *. cbn [map fst] in *. repeat split; try assumption; apply Hreach.
+Qed.
+
+(* the query level: SearchQuery::search with an origin only (forward) or a destination only (reverse) *)
+Definition plain_query (alg : algorithm) (origin destination : Z) : search_query :=
+  {| s_algorithm := alg; s_origin := QId origin; s_destination := QId destination;
+     s_limit := 0; s_offset := 0; s_order_by := []; s_conditions := [] |}.
+
+Theorem search_query_forward : forall d o, adj_ok (gr d) -> graph_index (gr d) o = true ->
+  search rv_fixed d (plain_query ABreadthFirst o 0) = SOk (map fst (bfs_spec (gr d) false o)) /\
+  search rv_fixed d (plain_query ADepthFirst o 0) = SOk (map fst (dfs_spec (gr d) false o)).
+Proof.
+  intros d o Hok Ho. unfold search, plain_query, bfs_spec, dfs_spec.
+  cbn [s_algorithm s_origin s_destination s_limit s_offset s_order_by s_conditions is_zero_id db_id handler_of].
+  rewrite Ho. cbn [Z.eqb andb]. rewrite !(lazy_eq_eager d _ false o Hok Ho). split; reflexivity.
+Qed.
+
+Theorem search_query_reverse : forall d o, adj_ok (gr d) -> graph_index (gr d) o = true ->
+  search rv_fixed d (plain_query ABreadthFirst 0 o) = SOk (map fst (bfs_spec (gr d) true o)) /\
+  search rv_fixed d (plain_query ADepthFirst 0 o) = SOk (map fst (dfs_spec (gr d) true o)).
+Proof.
+  intros d o Hok Ho.
+  assert (Hnz : o <> 0).
+  { pose proof Ho as H. rewrite graph_index_elem_id in H. apply elem_id_slot in H. lia. }
+  pose proof (lazy_eq_eager d BFS true o Hok Ho) as Hb. pose proof (lazy_eq_eager d DFS true o Hok Ho) as Hd.
+  unfold search, plain_query, bfs_spec, dfs_spec.
+  cbn [s_algorithm s_origin s_destination s_limit s_offset s_order_by s_conditions db_id handler_of].
+  change (handler_of 0 0) with HDefault.
+  destruct o as [|p|p]; [lia| |]; cbn [is_zero_id]; rewrite Ho, Hb, Hd; split; reflexivity.
+Qed.
+
+(* ====================================================================== *)
+(* 11. witnesses: the two repaired defects                                  *)
+(* ====================================================================== *)
+
+From Agdb Require Import Queries.
+
+Definition q_nodes (n : Z) : query := InsertNodes n (Single []) [] (Ids []).
+Definition q_edge (f t : Z) : query := InsertEdges (Ids [QId f]) (Ids [QId t]) (Single []) false (Ids []).
+Definition run_queries (r : revision) (qs : list query) : db := fold_left (fun d q => fst (exec r d q)) qs db_new.
+Definition ids_of (r : qres) : option (list Z) :=
+  match r with QOk _ els => Some (map e_id els) | _ => None end.
+
+(* (1) before fix_edge_origin: a search from an edge also returned the edge's older siblings,
+   which are not reachable from it.  Nodes 1 2, edges -3 : 1->2, -4 : 1->2. *)
+Definition witness1 (r : revision) : db := run_queries r [q_nodes 2; q_edge 1 2; q_edge 1 2].
+
+Lemma edge_origin_pinned_refuted :
+  let d := witness1 rv_pinned in
+  adj_ok (gr d) /\ graph_index (gr d) (-4) = true /\
+  graph_search rv_pinned d BFS false (-4) [] HDefault = Some [-4; -3; 2] /\
+  graph_search rv_pinned d DFS false (-4) [] HDefault = Some [-4; 2; -3] /\
+  ids_of (snd (exec rv_pinned d (SearchQ (plain_query ABreadthFirst (-4) 0)))) = Some [-4; -3; 2] /\
+  ~ reach (gr d) false (-4) (-3) /\
+  graph_search rv_fixed (witness1 rv_fixed) BFS false (-4) [] HDefault = Some [-4; 2].
+Proof.
+  intros d. split; [apply adj_okb_sound; vm_compute; reflexivity|].
+  split; [vm_compute; reflexivity|]. split; [vm_compute; reflexivity|]. split; [vm_compute; reflexivity|].
+  split; [vm_compute; reflexivity|]. split; [|vm_compute; reflexivity].
+  assert (H : forall x, reach (gr d) false (-4) x -> x = -4 \/ x = 2).
+  { intros x Hx. induction Hx as [|x y _ IH Hy]; [left; reflexivity|].
+    destruct IH as [->| ->]; vm_compute in Hy; [destruct Hy as [<-|[]]; right; reflexivity | contradiction]. }
+  intros Hr. destruct (H _ Hr); discriminate.
+Qed.
+
+(* (2) with fix_edge_origin but before fix_visited_chain: the already visited origin edge cut the
+   lazily expanded edge list of its node, so older siblings reachable through the node were lost.
+   Node 1, self-loops -2 and -3. *)
+Definition rv_no_visited_chain : revision :=
+  {| fix_rollback_replace := true; fix_alias_steal_undo := true; fix_alias_nodes_only := true;
+     fix_strict_order := true; fix_slice_clamp := true; fix_edge_origin := true;
+     fix_visited_chain := false |}.
+
+Definition witness2 (r : revision) : db := run_queries r [q_nodes 1; q_edge 1 1; q_edge 1 1].
+
+Lemma visited_chain_refuted :
+  let d := witness2 rv_no_visited_chain in
+  adj_ok (gr d) /\ graph_index (gr d) (-3) = true /\
+  graph_search rv_no_visited_chain d BFS false (-3) [] HDefault = Some [-3; 1] /\
+  graph_search rv_no_visited_chain d DFS false (-3) [] HDefault = Some [-3; 1] /\
+  graph_search rv_no_visited_chain d BFS true (-3) [] HDefault = Some [-3; 1] /\
+  ids_of (snd (exec rv_no_visited_chain d (SearchQ (plain_query ABreadthFirst (-3) 0)))) = Some [-3; 1] /\
+  reach (gr d) false (-3) (-2) /\
+  graph_search rv_fixed (witness2 rv_fixed) BFS false (-3) [] HDefault = Some [-3; 1; -2].
+Proof.
+  intros d. split; [apply adj_okb_sound; vm_compute; reflexivity|].
+  split; [vm_compute; reflexivity|]. split; [vm_compute; reflexivity|]. split; [vm_compute; reflexivity|].
+  split; [vm_compute; reflexivity|]. split; [vm_compute; reflexivity|]. split; [|vm_compute; reflexivity].
+  apply (reach_step _ _ _ 1).
+  - apply (reach_step _ _ _ (-3)); [constructor|]. vm_compute. left. reflexivity.
+  - vm_compute. right. left. reflexivity.
+Qed.
+
+(* non-vacuity of the positive theorems: searches on the example graph of AdjOk.v *)
+Definition example_db : db := with_gr db_new example_graph.
+
+Lemma example_searches :
+  adj_ok (gr example_db) /\
+  graph_search rv_fixed example_db BFS false 1 [] HDefault = Some [1; -5; -4; 3; 2; -7; -8; -6] /\
+  graph_search rv_fixed example_db DFS false 1 [] HDefault = Some [1; -5; 3; -7; -4; 2; -8; -6] /\
+  graph_search rv_fixed example_db BFS true 3 [] HDefault = Some [3; -5; -6; 1; 2; -7; -8; -4] /\
+  graph_search rv_fixed example_db DFS false (-4) [] HDefault = Some [-4; 2; -8; -6; 3; -7; 1; -5] /\
+  bfs_spec example_graph false 1 = [(1, 0); (-5, 1); (-4, 1); (3, 2); (2, 2); (-7, 3); (-8, 3); (-6, 3)].
+Proof.
+  split; [exact example_graph_adj_ok|]. vm_compute. repeat split.
+Qed.
+
+(* ====================================================================== *)
+(* 12. the statements pinned in Props/C14.v                                 *)
+(* ====================================================================== *)
+
+Lemma lazy_eq_eager_bfs : forall d reverse origin,
+  adj_ok (gr d) -> graph_index (gr d) origin = true ->
+  graph_search rv_fixed d BFS reverse origin [] HDefault = Some (map fst (bfs_spec (gr d) reverse origin)).
+Proof. intros. apply lazy_eq_eager; assumption. Qed.
+
+Lemma lazy_eq_eager_dfs : forall d reverse origin,
+  adj_ok (gr d) -> graph_index (gr d) origin = true ->
+  graph_search rv_fixed d DFS reverse origin [] HDefault = Some (map fst (dfs_spec (gr d) reverse origin)).
+Proof. intros. apply lazy_eq_eager; assumption. Qed.
+
+Lemma bfs_reachable : forall g reverse o,
+  adj_ok g -> graph_index g o = true ->
+  let r := bfs_spec g reverse o in
+  (exists tl, r = (o, 0) :: tl) /\
+  NoDup (map fst r) /\
+  (forall x, In x (map fst r) <-> reach g reverse o x) /\
+  StronglySorted Z.le (map snd r) /\
+  (forall x k, In (x, k) r -> shortest g reverse o x k).
+Proof.
+  intros g rv o Hok Ho r. rewrite graph_index_elem_id in Ho.
+  destruct (search_spec_reachable g Hok BFS rv o Ho) as (H1 & H2 & H3 & _).
+  destruct (bfs_spec_distances g Hok rv o Ho) as (H4 & H5).
+  split; [exact H1|]. split; [exact H2|]. split; [exact H3|]. split; [exact H4 | exact H5].
+Qed.
+
+Lemma dfs_preorder : forall g reverse o,
+  adj_ok g -> graph_index g o = true ->
+  let r := dfs_spec g reverse o in
+  (exists tl, r = (o, 0) :: tl) /\
+  NoDup (map fst r) /\
+  (forall x, In x (map fst r) <-> reach g reverse o x) /\
+  (forall x k, In (x, k) r -> walk g reverse o x k) /\
+  (forall fr, (search_fuel g <= fr)%nat -> map fst r = rev (dfs_rec g reverse fr o [])).
+Proof.
+  intros g rv o Hok Ho r. rewrite graph_index_elem_id in Ho.
+  destruct (search_spec_reachable g Hok DFS rv o Ho) as (H1 & H2 & H3 & H4).
+  split; [exact H1|]. split; [exact H2|]. split; [exact H3|]. split; [exact H4|].
+  intros fr Hfr. apply dfs_spec_preorder; assumption.
+Qed.
